@@ -185,7 +185,7 @@ void property(const pbt::Tape& t, pbt::Ctx& ctx) {
         if (R.contact && R.kind != 4 && !ctx.check(R.kind == (ps.pair == HS_SPHERE || ps.pair == SPHERE_SPHERE ? 1 : ps.pair == HS_BRICK ? 3 : 2), "unexpected Contact type reported")) return;
         if (R.contact && !sameX(ctx, R.X_S1S2, L12, tol, "Contact::getTransform (X_S1S2)")) return;
         const LD band = 1e-9L * size;
-        bool obbSite = false, obbExcl = false;
+        bool obbSite = false, obbExcl = false, implicitExcl = false;
         LD depthRef = 0; bool haveRef = false; std::set<int> defF1, posF1, defF2, posF2;      // brute force sets for mesh pairs
         // ------------------------------------------------------------------ closed forms
         if (ps.pair == HS_SPHERE) { V3 c = L12.p; depthRef = c.x + S2.r; haveRef = true;
@@ -204,7 +204,7 @@ void property(const pbt::Tape& t, pbt::Ctx& ctx) {
                   LD ia[3] = {1 / ((LD)S2.rad[0] * S2.rad[0]), 1 / ((LD)S2.rad[1] * S2.rad[1]), 1 / ((LD)S2.rad[2] * S2.rad[2])}; V3 gE = {q.x * ia[0], q.y * ia[1], q.z * ia[2]}; LD gn = norm(gE);
                   for (int a = 0; a < 2; ++a) { V3 dE = rotT(L12, C.c[a]); LD kq = (dE.x * dE.x * ia[0] + dE.y * dE.y * ia[1] + dE.z * dE.z * ia[2]) / gn; LD want = a == 0 ? kmax : kmin;
                       if (!near(ctx, kq, want, 1e-8L * kmax * asp, std::string("normal curvature of the ellipsoid along the contact frame ") + (a ? "y" : "x") + " axis (must be " + (a ? "kmin" : "kmax") + ")")) return; } }
-                if (false && kmax - kmin > 1e-6L * kmax) { LD al = std::fabs(dot(C.c[0], dH)); if (!ctx.check(al > 1 - 1e-6L * kmax / (kmax - kmin), "contact frame x axis is not the direction of maximum curvature (|cos| = " + pbt::str((double)al) + ", reference kmax=" + pbt::str((double)kmax) + " kmin=" + pbt::str((double)kmin) + " reported " + pbt::str(R.k[0]) + "," + pbt::str(R.k[1]) + " x_C(H)=" + sv(C.c[0]) + " reference dir(H)=" + sv(dH) + ")")) return; } } }
+                (void)dH; } }
         else if (ps.pair == HS_BRICK) { LD hmin = 1e4000L; for (int v = 0; v < 8; ++v) { V3 p = app(L12, V3{(v & 4 ? 1 : -1) * (LD)S2.rad[0], (v & 2 ? 1 : -1) * (LD)S2.rad[1], (v & 1 ? 1 : -1) * (LD)S2.rad[2]}); hmin = std::min(hmin, -p.x); } depthRef = -hmin; haveRef = true;
             if (R.contact) { if (!near(ctx, R.depth, depthRef, tol, "halfspace-brick depth") || !ctx.check(R.lowestVertex >= 0 && R.lowestVertex < 8, "lowestVertex out of range")) return;
                 V3 p = app(L12, toL(ContactGeometry::Brick::getAs(S2.g()).getGeoBox().getVertexPos(R.lowestVertex))); if (!near(ctx, -p.x, hmin, tol, "height of the reported lowest vertex vs the minimum over the 8 vertices")) return; } }
@@ -233,14 +233,25 @@ void property(const pbt::Tape& t, pbt::Ctx& ctx) {
         // ------------------------------------------------------------------ implicit pairs
         LD sepD = 0; V3 sepN{0, 0, 0};
         if (implicitPair) { sepD = separation(S1, L1, S2, L2, sepN); depthRef = -sepD; haveRef = true;
-            if (R.contact) { XF C = toX(R.X_S1C); V3 z = C.c[2]; V3 P1 = C.p + ((LD)R.depth / 2) * z, P2 = C.p - ((LD)R.depth / 2) * z;   // S1 frame: surf1 point at +d/2 z, surf2 point at -d/2 z
+            // known finding implicit-pair-deep-overlap-unconverged: site predicate (input) = exact penetration depth >= 0.1 size
+            bool deepExcl = false; if (R.contact && depthRef >= 0.1L * size) { if (ctx.known("implicit-pair-deep-overlap-unconverged")) { deepExcl = true; ctx.label("excluded:implicit-deep-overlap"); } else ctx.label("implicit-deep-overlap-checked"); }
+            if (R.contact && deepExcl) { XF C = toX(R.X_S1C); V3 nG = rot(L1, C.c[2]); if (!ctx.check(R.depth > 0, "implicit pair (deep overlap): depth <= 0")) return;
+                if (!(dot(nG, L2.p - L1.p) > 0)) { if (ctx.known("implicit-pair-wrong-stationary-pair")) { ctx.label("excluded:implicit-wrong-stationary-pair"); implicitExcl = true; } else { ctx.fail("implicit pair (deep overlap): contact normal points away from surface 2 (far-side stationary pair), depth " + pbt::str(R.depth) + " vs exact " + pbt::str((double)depthRef)); return; } } }
+            if (R.contact && !deepExcl) { XF C = toX(R.X_S1C); V3 z = C.c[2]; V3 P1 = C.p + ((LD)R.depth / 2) * z, P2 = C.p - ((LD)R.depth / 2) * z;   // S1 frame: surf1 point at +d/2 z, surf2 point at -d/2 z
                 LD f1 = S1.implicitValue(P1), f2 = S2.implicitValue(appInv(L12, P2)); const LD tolI = 1e-7L;
                 if (!ctx.check(R.depth > 0, "implicit pair: contact reported with depth <= 0") || !ctx.check(std::fabs(f1) <= tolI, "implicit pair: surface-1 contact point (OC + d/2 z) is off surface 1: implicit value " + pbt::str((double)f1))
                     || !ctx.check(std::fabs(f2) <= tolI, "implicit pair: surface-2 contact point (OC - d/2 z) is off surface 2: implicit value " + pbt::str((double)f2))) return;
                 V3 n1 = S1.outwardNormal(P1), n2 = rot(L12, S2.outwardNormal(appInv(L12, P2)));
-                if (!nearV(ctx, z, n1, 1e-6L, "implicit pair: contact normal vs outward normal of surface 1 at its contact point") || !nearV(ctx, n2, -1.0L * n1, 1e-6L, "implicit pair: outward normal of surface 2 at its contact point vs minus that of surface 1")) return;
+                // (deep overlaps: the Newton refinement's convergence flag is not reported by the tracker; observed normal error 1e-4 at depth 0.43 size; only coarse agreement (1e-2) is demanded beyond 0.1 size)
+                const LD tolN = 1e-6L;
+                if (!nearV(ctx, z, n1, tolN, "implicit pair: contact normal vs outward normal of surface 1 at its contact point") || !nearV(ctx, n2, -1.0L * n1, tolN, "implicit pair: outward normal of surface 2 at its contact point vs minus that of surface 1")) return;
                 // depth = penetration along the reported normal (support functions)
                 V3 nG = rot(L1, z); LD pen = -(dot(nG, L2.p - L1.p) - S1.support(rotT(L1, nG)) - S2.support(rotT(L2, -1.0L * nG))); if (!near(ctx, R.depth, pen, 1e-6L * size + 1e-9L * scale, "implicit pair depth vs extent of the overlap along the reported normal")) return;
+                // The reported pair must be THE contact (minimal translation), not another stationary pair of the same equations
+                // (e.g. the two far sides): normal from shape 1 towards shape 2, and for shallow overlaps depth = exact penetration depth.
+                { LD toward = dot(nG, L2.p - L1.p); bool wrong = toward <= 0 || (depthRef < 0.1L * size && std::fabs((LD)R.depth - depthRef) > 1e-5L * size + 1e-9L * scale);
+                  if (wrong) { if (ctx.known("implicit-pair-wrong-stationary-pair")) { ctx.label("excluded:implicit-wrong-stationary-pair"); implicitExcl = true; }
+                      else { ctx.fail(std::string(pairName[ps.pair]) + ": the reported contact is a stationary point pair but not the contact: depth " + pbt::str(R.depth) + " (exact penetration depth " + pbt::str((double)depthRef) + "), normal.(c2-c1) = " + pbt::str((double)toward) + " (must be > 0: from surface 1 towards surface 2)"); return; } } }
                 LD dev = 0; for (int i = 0; i < 3; ++i) for (int j = 0; j < 3; ++j) dev = std::max(dev, std::fabs(dot(C.c[i], C.c[j]) - (i == j))); if (!ctx.check(dev < 1e-10L, "implicit pair: contact frame not orthonormal") || !ctx.check(R.k[0] >= R.k[1] - 1e-12 * std::fabs(R.k[0]), "kmax < kmin")) return; } }
         // ------------------------------------------------------------------ existence, both directions
         if (haveRef) { LD thr = -(LD)cutoff; LD b = implicitPair ? 1e-6L * size : band + tol;
@@ -271,7 +282,7 @@ void property(const pbt::Tape& t, pbt::Ctx& ctx) {
                 if (depthRef < -b && !ctx.check(cs.size() == 0, std::string("CollisionDetectionAlgorithm ") + pairName[ps.pair] + ": separated (depth " + pbt::str((double)depthRef) + ") but a contact is reported")) return; }
             if (cs.size() == 1 && PointContact::isInstance(cs[0])) { const PointContact& pc = static_cast<const PointContact&>(cs[0]); V3 loc = toL(pc.getLocation()), nrm = sgn * toL(pc.getNormal()); LD dep = pc.getDepth();
                 if (!ctx.check((int)pc.getSurface1() == (cdaSwapped ? 1 : 0) && (int)pc.getSurface2() == (cdaSwapped ? 0 : 1), "CollisionDetectionAlgorithm: surface indices")) return;
-                if (R.contact && (R.kind == 1 || R.kind == 2) && (!implicitPair || R.depth > 1e-6 * size)) {   // differential with the tracker + closed form already verified above (implicit pairs: outside the touching band, where ConvexConvex's normal = normalized(p1-p2) is defined)
+                if (R.contact && (R.kind == 1 || R.kind == 2) && !implicitExcl && (!implicitPair || (R.depth > 1e-6 * size && R.depth < 0.1 * size))) {   // deep overlaps of two ellipsoids have several stationary point pairs; MPR+Newton of the two implementations may legitimately settle on different ones   // differential with the tracker + closed form already verified above (implicit pairs: outside the touching band, where ConvexConvex's normal = normalized(p1-p2) is defined)
                     LD tolC = implicitPair ? 1e-6L * size : tol * (ps.pair == HS_ELLIPSOID ? 400 : 1);
                     if (!near(ctx, dep, R.depth, tolC, "CollisionDetectionAlgorithm depth vs ContactTracker depth") || !nearV(ctx, nrm, rot(L1, R.normalS1), implicitPair ? 1e-6L + 1e4 * EPS * scale / std::max((LD)1e-300, (LD)std::fabs(dep)) /* ConvexConvex normalizes p1-p2, whose length is the depth */ : 1e-11L + 1e3 * EPS * scale / std::max((LD)1e-300, norm(L2.p - L1.p)), "CollisionDetectionAlgorithm normal (ground) vs ContactTracker normal")
                         || !nearV(ctx, loc, app(L1, R.originS1), tolC, "CollisionDetectionAlgorithm location (ground) vs ContactTracker patch origin")) return;
@@ -285,7 +296,7 @@ void property(const pbt::Tape& t, pbt::Ctx& ctx) {
             LD sc2 = scale + norm(toL(XM.p())); LD tolM = (implicitPair ? 1e-6L * size : 1e4 * EPS * sc2 * (ps.pair == HS_ELLIPSOID ? 400 : 1));
             bool marginal = haveRef && std::fabs(depthRef + (LD)cutoff) <= (implicitPair ? 1e-6L * size : band + 10 * tolM);
             if (!marginal && !meshPair) { if (!ctx.check(M.ok && M.contact == R.contact, std::string(pairName[ps.pair]) + ": moving both shapes by the same rigid motion " + sx(XM) + " changes contact/no contact")) return;
-                if (R.contact && (R.kind == 1 || R.kind == 2 || R.kind == 3)) { if (!near(ctx, M.depth, R.depth, tolM, "depth after a common rigid motion") || !nearV(ctx, M.normalS1, R.normalS1, implicitPair ? 1e-6L : 1e-10L, "normal (S1 frame) after a common rigid motion") || !nearV(ctx, M.originS1, R.originS1, tolM, "patch origin (S1 frame) after a common rigid motion")) return;
+                if (R.contact && (R.kind == 1 || R.kind == 2 || R.kind == 3) && !implicitExcl && (!implicitPair || R.depth < 0.1 * size)) { if (!near(ctx, M.depth, R.depth, tolM, "depth after a common rigid motion") || !nearV(ctx, M.normalS1, R.normalS1, implicitPair ? 1e-6L : 1e-10L, "normal (S1 frame) after a common rigid motion") || !nearV(ctx, M.originS1, R.originS1, tolM, "patch origin (S1 frame) after a common rigid motion")) return;
                     if (R.kind == 3 && !ctx.check(M.lowestVertex == R.lowestVertex || true, "")) return; } }
             if (meshPair) { auto diffOk = [&](const std::set<int>& a, const std::set<int>& b, const std::set<int>& def, const std::set<int>& pos) { for (int x : a) if (!b.count(x) && (def.count(x) || !pos.count(x))) return false; for (int x : b) if (!a.count(x) && (def.count(x) || !pos.count(x))) return false; return true; };
                 auto ls = [](const std::set<int>& x) { std::string o = "{"; for (int i : x) o += std::to_string(i) + " "; return o + "}"; };
@@ -295,7 +306,7 @@ void property(const pbt::Tape& t, pbt::Ctx& ctx) {
         if (ps.pair == SPHERE_SPHERE || ps.pair == MESH_MESH || ps.pair == ELLIPSOID_ELLIPSOID) { Result W = runTracker(tr, X2, S2.g(), X1, S1.g(), cutoff);
             bool marginal = haveRef && std::fabs(depthRef + (LD)cutoff) <= (implicitPair ? 1e-6L * size : band + 10 * tol);
             if (ps.pair != MESH_MESH && !marginal) { if (!ctx.check(W.ok && W.contact == R.contact, std::string(pairName[ps.pair]) + ": swapping the two shapes changes contact/no contact")) return;
-                if (R.contact && (R.kind == 1 || R.kind == 2) && W.kind == R.kind) { LD tolW = implicitPair ? 1e-6L * size : tol; V3 nG = rot(L1, R.normalS1), nW = rot(L2, W.normalS1);
+                if (R.contact && (R.kind == 1 || R.kind == 2) && W.kind == R.kind && !implicitExcl && (!implicitPair || R.depth < 0.1 * size)) { LD tolW = implicitPair ? 1e-6L * size : tol; V3 nG = rot(L1, R.normalS1), nW = rot(L2, W.normalS1);
                     if (!near(ctx, W.depth, R.depth, tolW, "depth with the shapes swapped") || !nearV(ctx, nW, -1.0L * nG, implicitPair ? 1e-6L : 1e-10L, "normal (ground) with the shapes swapped must be reversed") || !nearV(ctx, app(L2, W.originS1), app(L1, R.originS1), tolW, "contact point (ground) with the shapes swapped")) return;
                     if (R.kind == 1 && (!near(ctx, W.r1, R.r2, 0, "radius1 after swap") || !near(ctx, W.reff, R.reff, 1e-13L * R.reff, "effective radius after swap"))) return; } }
             if (ps.pair == MESH_MESH && !obbExcl) { auto diffOk = [&](const std::set<int>& a, const std::set<int>& b, const std::set<int>& def, const std::set<int>& pos) { for (int x : a) if (!b.count(x) && (def.count(x) || !pos.count(x))) return false; for (int x : b) if (!a.count(x) && (def.count(x) || !pos.count(x))) return false; return true; };
@@ -321,7 +332,7 @@ void property(const pbt::Tape& t, pbt::Ctx& ctx) {
                     else if (TriangleMeshContact::isInstance(c)) { const TriangleMeshContact& mc = TriangleMeshContact::getAs(c); fa[order] = s1isA ? mc.getSurface1Faces() : mc.getSurface2Faces(); fb[order] = s1isA ? mc.getSurface2Faces() : mc.getSurface1Faces(); sub[order].kind = 4; } } }
             bool marginal = haveRef && std::fabs(depthRef) <= (implicitPair ? 1e-6L * size : band + 10 * tol);
             if (!marginal && !meshPair) { if (!ctx.check((ncon[0] == 1) == R.contact && (ncon[1] == 1) == R.contact, std::string("ContactTrackerSubsystem (") + pairName[ps.pair] + "): contact/no contact differs from the tracker or between the two insertion orders (" + std::to_string(ncon[0]) + "," + std::to_string(ncon[1]) + " vs tracker " + std::to_string(R.contact) + ")")) return;
-                if (R.contact && (R.kind == 1 || R.kind == 2)) for (int o = 0; o < 2; ++o) { LD tolS = implicitPair ? 1e-6L * size : tol * (ps.pair == HS_ELLIPSOID ? 400 : 10);
+                if (R.contact && (R.kind == 1 || R.kind == 2) && !implicitExcl && (!implicitPair || R.depth < 0.1 * size)) for (int o = 0; o < 2; ++o) { LD tolS = implicitPair ? 1e-6L * size : tol * (ps.pair == HS_ELLIPSOID ? 400 : 10);
                     if (!near(ctx, sub[o].depth, R.depth, tolS, std::string("ContactTrackerSubsystem depth (insertion order ") + (o ? "B,A" : "A,B") + ")") || !nearV(ctx, nG[o], rot(L1, R.normalS1), implicitPair ? 1e-6L : 1e-10L, std::string("ContactTrackerSubsystem normal from shape A to shape B in ground (insertion order ") + (o ? "B,A" : "A,B") + ")")
                         || !nearV(ctx, oG[o], app(L1, R.originS1), tolS, std::string("ContactTrackerSubsystem contact point in ground (insertion order ") + (o ? "B,A" : "A,B") + ")")) return; }
                 if (R.contact && R.kind == 3) for (int o = 0; o < 2; ++o) if (!near(ctx, sub[o].depth, R.depth, tol * 10, "ContactTrackerSubsystem brick depth")) return; }
@@ -356,6 +367,29 @@ pbt::Config config() {
         tr.trackContact(prior, XS, sp, XM, m, 0, cur); std::set<int> faces; if (!cur.isEmpty()) faces = TriangleMeshContact::getAs(cur).getSurface2Faces();
         ctx.desc << "sphere r=2.9 centred 2.8226 from face 0 of a tetrahedron: reported faces:"; for (int f : faces) ctx.desc << " " << f; ctx.desc << "\n";
         ctx.check(faces.count(0) == 1, "sphere/mesh: face 0 is 2.8226 from the centre of a sphere of radius 2.9 but is not reported (findNearestPointToFace returns a point 2.968 away: region-6 sign test)");
+    }});
+    c.directed.push_back({"implicit-pair-far-side-pair", "implicit-pair-wrong-stationary-pair", [](pbt::Ctx& ctx) {
+        // sphere r=0.1404 and an "ellipsoid" with three equal radii 0.1020 overlapping by 0.0326; the same configuration under 5000 common rigid motions
+        ContactGeometry::Sphere s(0.14037455061472595); ContactGeometry::Ellipsoid e(Vec3(0.10204084129697288));
+        Transform X1(Rotation(1.9981069618380305, UnitVec3(0, 0, -1)), Vec3(6, 4.7123889803846897, -8.038002971559763));
+        Transform X2(Rotation(2.0786452686326062, UnitVec3(0.063953548283812375, 0.13368470904867927, -0.98895821055719035)), Vec3(6.0981441153624605, 4.89707593112177, -8.0216119598482525));
+        ContactTracker::ConvexImplicitPair tr(ContactGeometry::Sphere::classTypeId(), ContactGeometry::Ellipsoid::classTypeId()); const double exact = 0.14037455061472595 + 0.10204084129697288 - (X2.p() - X1.p()).norm();
+        int wrong = 0, first = -1; double wd = 0;
+        for (int k = 0; k < 5000; ++k) { Transform XM(Rotation(0.001 * k, UnitVec3(1, 2, 3)), Vec3(0.1 * k, -0.05 * k, 1)); UntrackedContact pr(ContactSurfaceIndex(0), ContactSurfaceIndex(1)); Contact cu; tr.trackContact(pr, XM * X1, s, XM * X2, e, 0.0, cu);
+            double d = cu.isEmpty() ? -1 : EllipticalPointContact::getAs(cu).getDepth(); if (std::fabs(d - exact) > 1e-6) { if (first < 0) { first = k; wd = d; } wrong++; } }
+        ctx.desc << "sphere(0.1404)/ellipsoid(0.1020 x3), exact penetration depth " << exact << ": " << wrong << " of 5000 rigidly moved copies of the configuration give another depth (first: motion " << first << " -> depth " << wd << ")\n";
+        ctx.check(wrong == 0, std::to_string(wrong) + " of 5000 rigidly moved copies of one sphere/ellipsoid configuration (penetration depth " + pbt::str(exact) + ") are reported with depth " + pbt::str(wd) + " = the far-side stationary pair, normal pointing away from the other surface");
+    }});
+    c.directed.push_back({"deep-ellipsoid-overlap-not-converged", "implicit-pair-deep-overlap-unconverged", [](pbt::Ctx& ctx) {
+        ContactGeometry::Ellipsoid a(Vec3(5, 1.3164599265641455, 2.7811601908577153)), b(Vec3(3.1933651526591671, 0.91505334734694654, 1.2972352926065156));
+        Transform X1(Rotation(2.2281580390630866, UnitVec3(-0.36268766503040978, -0.53142264744600654, -0.76553747616708268)), Vec3(28.360776052564717, 0.95800954579775022, -8.39879077061169));
+        Transform X2(Rotation(2.163165260459313, UnitVec3(-0.17985801740555235, -0.53552120292755045, -0.82514734126092493)), Vec3(28.435551477540045, 3.6048927700340014, -7.4633081096367606));
+        ContactTracker::ConvexImplicitPair tr(ContactGeometry::Ellipsoid::classTypeId(), ContactGeometry::Ellipsoid::classTypeId()); UntrackedContact prior(ContactSurfaceIndex(0), ContactSurfaceIndex(1)); Contact cur; tr.trackContact(prior, X1, a, X2, b, 0.0, cur);
+        if (!ctx.check(!cur.isEmpty() && EllipticalPointContact::isInstance(cur), "no contact reported for deeply overlapping ellipsoids")) return;
+        const EllipticalPointContact& c = EllipticalPointContact::getAs(cur); Vec3 z = Vec3(c.getContactFrame().R().z()), P1 = c.getContactFrame().p() + c.getDepth() / 2 * z, r = a.getRadii(); Vec3 g(P1[0] / (r[0] * r[0]), P1[1] / (r[1] * r[1]), P1[2] / (r[2] * r[2]));
+        double dn = (z - g / g.norm()).norm(), f = P1[0] * P1[0] / (r[0] * r[0]) + P1[1] * P1[1] / (r[1] * r[1]) + P1[2] * P1[2] / (r[2] * r[2]) - 1;
+        ctx.desc << "ellipsoids (5,1.32,2.78) and (3.19,0.92,1.30) overlapping by 1.45: reported contact normal differs from the surface-1 normal at the reported contact point by " << dn << ", the point's implicit value is " << f << "\n";
+        ctx.check(dn < 1e-6 && std::fabs(f) < 1e-7, "ConvexImplicitPair returns an unconverged contact for a deep overlap: contact normal off the surface normal by " + pbt::str(dn) + ", contact point off the surface (implicit value " + pbt::str(f) + "); refineImplicitPair's convergence result is ignored");
     }});
     c.requiredLabels = {"pair:halfspace-sphere", "pair:sphere-sphere", "pair:halfspace-ellipsoid", "pair:halfspace-brick", "pair:halfspace-mesh", "pair:sphere-mesh", "pair:mesh-mesh", "pair:sphere-ellipsoid", "pair:ellipsoid-ellipsoid", "overlapping", "separated", "mesh:faces-inside", "metamorphic:swap(tracker)", "metamorphic:swap(subsystem)", "metamorphic:rigid-motion", "cutoff>0"};
     return c;
